@@ -16,11 +16,14 @@ STATE_POOLS = {
     "str": ["a", "b", "a;b", "b;a"],          # look like the library's merged names
     "mixed": [0, "0", "TrashNode", "0;TrashNode", 1, "1"],
     "tuple": [(0, 1), (1, 0), "(0, 1)", ((0, 1), (1, 0))],
+    # what the merged-name scheme hands out on a collision, used as operand names (start state first)
+    "suffix": ["a;b#2", "a", "b", "a;b", "a;b#1", "a;b#3", "a;b#4", "b;a"],
 }
 SYMBOL_POOLS = {
     "ab": {"a": "a", "b": "b", "c": "c"},
     "int": {"a": 0, "b": 1, "c": 2},
     "long": {"a": "ab", "b": "b", "c": "a"},
+    "neg": {"a": -1, "b": -2, "c": -3},          # hash(-1) == hash(-2) in CPython
 }
 
 
@@ -141,7 +144,7 @@ def rebuild_by_constructor(a):
         for s_from, symb, s_to in a:
             tf.add_transition(s_from, symb, s_to)
         if kind == "dfa":
-            start = a.start_state
+            start = next(iter(a.start_states), None)
         else:
             start = set(a.start_states)
         return CLASSES[kind](states=set(a.states), input_symbols=set(a.symbols), transition_function=tf, start_state=start,
